@@ -251,6 +251,8 @@ impl Front {
             let mut n = 0;
             let mut last_end = 0;
             let mut last_pass_end = 0;
+            let (mut adds_sent, mut adds_drained) = (0usize, 0usize);
+            let mut registering = false; // a drained AddAsset whose graph insertion is not logged yet
             for (i, l) in lines.iter().enumerate() {
                 match l["ev"].as_str() {
                     Some("EventsEnd") => {
@@ -258,10 +260,18 @@ impl Front {
                         last_end = i + 1;
                     }
                     Some("PassEnd") => last_pass_end = i + 1,
+                    Some("SendAdd") => adds_sent += 1,
+                    Some("MsgAddAsset") => {
+                        adds_drained += 1;
+                        registering = true;
+                    }
+                    Some("Graph") => registering = false,
                     _ => {}
                 }
             }
-            n >= sent && (!static_mode || sent == 0 || last_pass_end > last_end)
+            // in static mode the pass runs when the events are taken, and the assets it loads for the first time
+            // register themselves with messages that the thread drains on its next wake-up: wait for those too
+            n >= sent && (!static_mode || sent == 0 || (last_pass_end > last_end && adds_drained >= adds_sent && !registering))
         })
     }
 }
